@@ -98,6 +98,8 @@ pub fn graph_templates(prefix: &str, l: usize, ops: Ops, mon: Monitors) -> Vec<B
     vec![
         // pair var -> map_ref(.0) -> map ; second consumer keeps the var needed
         w(&n("mapref_chain"), vec![PVar, Fst(0), Map(1), PMap(0)], vec![2, 3], 2, l, ops.clone(), mon.clone()),
+        // map_ref over map_ref
+        w(&n("mapref_nested"), vec![PVar, Fst(0), RefId(1), Map(2), PMap(0)], vec![3, 4], 2, l, ops.clone(), mon.clone()),
         // diamond
         w(&n("diamond"), vec![Var, Map(0), Map(0), Map2(1, 2)], vec![3, 1], 2, l, ops.clone(), mon.clone()),
         // bind switching between two existing nodes of different height
@@ -299,7 +301,7 @@ pub fn meta(prop: &str, tier: Tier) -> PropMeta {
         "C01" => PropMeta {
             level: "other",
             functions: engine,
-            bounds: format!("9 graph templates (<=5 nodes, <=2 concurrent observers, <=4 observer slots), every history of {} actions from {{write var (fresh symbolic value; pair vars: both components or second only), observe node, drop observer, disallow observer, stabilise}} closed by a stabilise", l(6, 8)),
+            bounds: format!("10 graph templates (<=5 nodes, <=2 concurrent observers, <=4 observer slots), every history of {} actions from {{write var (fresh symbolic value; pair vars: both components or second only), observe node, drop observer, disallow observer, stabilise}} closed by a stabilise", l(6, 8)),
             outside: common_outside,
             assumptions: common_assume,
             rule: "one evaluation = one path of the decision tree (native run of the engine under a decision trail); distinct by construction (DFS never repeats a trail); non-trivial = the path contains at least one solver-decided branch on values with both outcomes feasible",
@@ -344,7 +346,7 @@ pub fn meta(prop: &str, tier: Tier) -> PropMeta {
         "C04" => PropMeta {
             level: "other",
             functions: engine,
-            bounds: format!("9 graph templates + 5 bind templates + closure-garbage/height-adjust template + late-node template, histories of {} actions from {{write, observe (also scope-created nodes), drop/disallow observer, subscribe, unsubscribe, drop node handle, create node, stabilise}}, run under BOTH build profiles (debug assertions on and off); every action and the final drop of all handles and the state run under catch_unwind", l(5, 7)),
+            bounds: format!("10 graph templates + 5 bind templates + closure-garbage/height-adjust template + late-node template, histories of {} actions from {{write, observe (also scope-created nodes), drop/disallow observer, subscribe, unsubscribe, drop node handle, create node, stabilise}}, run under BOTH build profiles (debug assertions on and off); every action and the final drop of all handles and the state run under catch_unwind", l(5, 7)),
             outside: common_outside,
             assumptions: common_assume,
             rule: "as C01",
@@ -431,7 +433,7 @@ pub fn meta(prop: &str, tier: Tier) -> PropMeta {
         "C09" => PropMeta {
             level: "other",
             functions: engine,
-            bounds: format!("9 graph templates, histories of {} actions from {{write, observe, drop, disallow, subscribe (<=2 per observer), unsubscribe by observer, unsubscribe by state, stabilise}}; expected notification per subscription and stabilise derived from the reference evaluator (changed = solver-decided inequality of consecutive from-scratch values)", l(6, 7)),
+            bounds: format!("10 graph templates, histories of {} actions from {{write, observe, drop, disallow, subscribe (<=2 per observer), unsubscribe by observer, unsubscribe by state, stabilise}}; expected notification per subscription and stabilise derived from the reference evaluator (changed = solver-decided inequality of consecutive from-scratch values)", l(6, 7)),
             outside: common_outside,
             assumptions: common_assume,
             rule: "as C01",
@@ -453,7 +455,7 @@ pub fn meta(prop: &str, tier: Tier) -> PropMeta {
                 e.push("incremental::IncrState::verif_audit (hook, cfg cormacrelf_incremental_rs_verif): edge symmetry and indices, heights, recompute-heap contents, counters, adjust-heights-heap Invariant");
                 e
             },
-            bounds: format!("9 graph templates + 5 bind templates, histories of {} actions from {{write, observe (also scope-created nodes), drop, disallow, subscribe, unsubscribe, stabilise}}; the audit runs after every single action under both build profiles", l(5, 7)),
+            bounds: format!("10 graph templates + 5 bind templates, histories of {} actions from {{write, observe (also scope-created nodes), drop, disallow, subscribe, unsubscribe, stabilise}}; the audit runs after every single action under both build profiles", l(5, 7)),
             outside: common_outside,
             assumptions: common_assume,
             rule: "as C01",
